@@ -124,6 +124,7 @@ class World:
         self.oth = None
         self.expd = None
         self.cm_ok = True
+        self.npflags = False     # mask flags spelled as numpy.bool_ (accepted by the API) instead of Python bool
 
     def apply(self, rec):
         """Perform one call; returns the exception (or None)."""
@@ -137,6 +138,8 @@ class World:
                 ids = list(range(1, n + 1)) if asc else list(range(n, 0, -1))
                 mask = {int(i): True for i in rec["t"]}
                 mask.update({int(i): False for i in rec["f"]})
+                if self.npflags:
+                    mask = {i: np.bool_(b) for i, b in mask.items()}
                 before = dict(mask)
                 new = DataSet(np.array([f_of(p) for p in ids]), np.array([64 * p * UNIT for p in ids]),
                               mask=mask, label="x")
@@ -163,6 +166,8 @@ class World:
             elif a == "SetMask":
                 mask = {int(i): True for i in rec["t"]}
                 mask.update({int(i): False for i in rec["f"]})
+                if self.npflags:
+                    mask = {i: np.bool_(b) for i, b in mask.items()}
                 before = dict(mask)
                 self.cur.set_mask(mask)
                 self.cm_ok = (mask == before)
@@ -225,6 +230,8 @@ def judge_history(hist):
     kind: 'violation' | 'drift'.  Only the first diverging step is reported.
     """
     w = World()
+    # every other behaviour (chosen by its content, so reproducibly) hands over numpy.bool_ flags
+    w.npflags = sum(len(r.get("t", ())) + 2 * len(r.get("f", ())) + len(r["a"]) for r in hist) % 2 == 1
     for k, rec in enumerate(hist):
         exc = w.apply(rec)
         a = rec["a"]
